@@ -54,36 +54,37 @@ Print Assumptions c15_bgzf_seek_read_exact_unclamped_refuted.
 
 (* ---- (2) CSI: ReferenceSequence::query on an arbitrary geometry and bin id ---------------- *)
 
-(* Known class (decidable): min_shift = 0, min_shift + 3*depth >= 64, depth >= 10, or a bin id at
-   or above Bin::max_id(depth).  Outside it the query never panics, for every region. *)
-Theorem c15_csi_query_total_partial :
-  forall ms depth id s e,
-    known_query ms depth id = false -> is_panic (query ms depth id s e) = false.
+(* After the repairs (max_position returns Err for min_shift = 0 / depth > 10 / shift >= 64,
+   bin_limit computed in i64, region_bins.get(id).unwrap_or(false)) the query never panics, for
+   EVERY min_shift, depth, bin id and region: no excluded class is left. *)
+Theorem c15_csi_query_total :
+  forall ms depth id s e, is_panic (query ms depth id s e) = false.
 Proof. exact query_total. Qed.
-Print Assumptions c15_csi_query_total_partial.
+Print Assumptions c15_csi_query_total.
 
-Theorem c15_csi_query_hostile_geometry_refuted :
+Theorem c15_csi_query_hostile_geometry_err :
   forall ms depth id s e,
-    ms = 0 \/ 64 <= ms + 3 * depth -> is_panic (query ms depth id s e) = true.
-Proof. exact query_hostile_geometry_panics. Qed.
-Print Assumptions c15_csi_query_hostile_geometry_refuted.
+    ms = 0 \/ 10 < depth \/ 64 <= ms + 3 * depth -> query ms depth id s e = Err.
+Proof. exact query_hostile_geometry_err. Qed.
+Print Assumptions c15_csi_query_hostile_geometry_err.
 
-Theorem c15_csi_query_hostile_bin_refuted :
+Theorem c15_csi_query_hostile_bin_not_selected :
   forall ms depth id s e nbits,
     bin_limit depth = Ok nbits -> nbits <= id ->
-    query ms depth id s e = Err \/ is_panic (query ms depth id s e) = true.
-Proof. exact query_hostile_bin_panics. Qed.
-Print Assumptions c15_csi_query_hostile_bin_refuted.
+    query ms depth id s e = Err \/ query ms depth id s e = Ok false.
+Proof. exact query_hostile_bin_not_selected. Qed.
+Print Assumptions c15_csi_query_hostile_bin_not_selected.
 
-Theorem known_csi_query_witness :
-  query 0 5 0 1 1 = Panic S_ASSERT_MIN_SHIFT /\
-  query 200 5 0 1 1 = Panic S_SHL_USIZE /\
-  query 1 30 0 1 1 = Panic S_SHL_USIZE /\
-  query 14 11 0 1 1 = Panic S_ASSERT_DEPTH /\
-  query 14 10 0 1 1 = Panic S_SHL_I32 /\
-  query 14 5 37449 1 1 = Panic S_BITVEC_INDEX.
-Proof. repeat split; vm_compute; reflexivity. Qed.
-Print Assumptions known_csi_query_witness.
+(* the code before the repairs panicked at six sites (recorded as fixed findings) *)
+Theorem fixed_csi_query_v0_witness :
+  query_v0 0 5 0 1 1 = Panic S_ASSERT_MIN_SHIFT /\
+  query_v0 200 5 0 1 1 = Panic S_SHL_USIZE /\
+  query_v0 1 30 0 1 1 = Panic S_SHL_USIZE /\
+  query_v0 14 11 0 1 1 = Panic S_ASSERT_DEPTH /\
+  query_v0 14 10 0 1 1 = Panic S_SHL_I32 /\
+  query_v0 14 5 37449 1 1 = Panic S_BITVEC_INDEX.
+Proof. exact query_v0_witnesses. Qed.
+Print Assumptions fixed_csi_query_v0_witness.
 
 Definition states_tail : list N := [0;0;128;0; 0;0;128;0; 0;0;128;0; 0;0;128;0; 0;0;0;0;0;0;0;0].
 
@@ -103,14 +104,14 @@ Print Assumptions known_rans_freq_witness.
 (* the full statement is refuted by the witnesses above *)
 Theorem c15_full_statement_refuted : ~ c15_full_statement.
 Proof.
-  intros [_ [H _]]. specialize (H 0 5 0 1 1). vm_compute in H. discriminate.
+  intros [_ [_ H]]. specialize (H ([254; 5; 255; 1; 1; 0] ++ states_tail)). vm_compute in H. discriminate.
 Qed.
 Print Assumptions c15_full_statement_refuted.
 
 (* non-vacuity: the hypotheses are satisfiable and the models accept ordinary inputs *)
 Example c15_nonvacuous_seek : loaded_len (skipn 1 [5; 7]) = 7 /\ seek_then [5; 7] 1 3 0 = Ok 4.
 Proof. split; vm_compute; reflexivity. Qed.
-Example c15_nonvacuous_query : known_query 14 5 4681 = false /\ query 14 5 4681 1 16384 = Ok true.
+Example c15_nonvacuous_query : query 14 10 0 1 1 = Ok true /\ query 14 5 4681 1 16384 = Ok true.
 Proof. split; vm_compute; reflexivity. Qed.
 Example c15_nonvacuous_rfreq : rfreq ([97; 5; 98; 2; 2; 1; 1; 114; 2; 0] ++ states_tail) = Ok tt.
 Proof. vm_compute. reflexivity. Qed.
